@@ -55,6 +55,15 @@ func (d *typeDictionary) add(n Node, name string, td *Typedef) {
 	d.dict[n][name] = td
 }
 
+// adopt registers in d all typedefs that were added to o.
+func (d *typeDictionary) adopt(o *typeDictionary) {
+	defer d.mu.Unlock()
+	d.mu.Lock()
+	for n, tds := range o.dict {
+		d.dict[n] = tds
+	}
+}
+
 // find returns the Typedef name define in node n, or nil.
 func (d *typeDictionary) find(n Node, name string) *Typedef {
 	defer d.mu.Unlock()
